@@ -138,11 +138,14 @@ func codeFromState(state *state) (*Code, error) {
 		if err != nil {
 			return nil, err
 		}
+		// A code object is named when it is a function with a name, as
+		// newChild says it. The main code has a name too ("__main__"), and a
+		// function may have that very name
 		code := &Code{
 			id:           c.ID,
 			parent:       parent,
 			name:         c.Name,
-			isNamed:      c.Name != "" && c.Name != "__main__",
+			isNamed:      c.Name != "" && c.ParentID != "",
 			functionID:   c.FunctionID,
 			symbols:      codeSymbols,
 			instructions: CopyInstructions(c.Instructions),
